@@ -59,18 +59,20 @@ pub const TOKENS: &[&str] = &[
   "-", "*", "/", "**", "=", "<", ">=", "1", ".5", "\"s\"", "@\"2020-01-01\"", "a", "b c", "d-e", "item", "date", "x",
 ];
 
-fn tokens_max_len(tier: &str) -> u32 {
-  if tier == "thorough" {
-    4
-  } else {
-    3
-  }
+fn tokens_max_len(_tier: &str) -> u32 {
+  3
 }
+
+/// thorough adds every string of length 4 over a core of 20 structural tokens and of length 5 over a core of 10
+const CORE20: &[&str] = &["if", "then", "else", "for", "in", "return", "some", "satisfies", "between", "and", "not", "function", "(", ")", "[", "]", "{", ",", "..", "a"];
+const CORE10: &[&str] = &["for", "in", "return", "if", "(", ")", "[", "..", "-", "a"];
 
 fn tokens_count(tier: &str) -> u64 {
   let n = TOKENS.len() as u64;
   let per = (ENTRY_POINTS.len() * 2) as u64;
-  (1..=tokens_max_len(tier)).map(|l| n.pow(l)).sum::<u64>() * per
+  let base = (1..=tokens_max_len(tier)).map(|l| n.pow(l)).sum::<u64>();
+  let extra = if tier == "thorough" { (CORE20.len() as u64).pow(4) + (CORE10.len() as u64).pow(5) } else { 0 };
+  (base + extra) * per
 }
 
 fn tokens_case(tier: &str, idx: u64) -> (String, u64, u64) {
@@ -87,10 +89,19 @@ fn tokens_case(tier: &str, idx: u64) -> (String, u64, u64) {
     s -= c;
     len += 1;
   }
+  let (alphabet, len): (&[&str], u32) = if len <= tokens_max_len(tier) {
+    (TOKENS, len)
+  } else if s < (CORE20.len() as u64).pow(4) {
+    (CORE20, 4)
+  } else {
+    s -= (CORE20.len() as u64).pow(4);
+    (CORE10, 5)
+  };
+  let m = alphabet.len() as u64;
   let mut toks = vec![];
   for _ in 0..len {
-    toks.push(TOKENS[(s % n) as usize]);
-    s /= n;
+    toks.push(alphabet[(s % m) as usize]);
+    s /= m;
   }
   (toks.join(" "), variant / 2, variant % 2)
 }
